@@ -273,12 +273,12 @@ func (g *gatedMetrics) disarm() {
 // a membership change".
 type gatedPeers struct {
 	*peer.MockPeers
-	driver int64
-	mu     sync.Mutex
-	gate   chan struct{} // non-nil: the next foreign GetPeers parks on it
-	failing bool         // GetPeers returns an error
-	everRead bool        // some GetPeers call has succeeded
-	parked chan struct{} // closed when a caller has parked
+	driver   int64
+	mu       sync.Mutex
+	gate     chan struct{} // non-nil: the next foreign GetPeers parks on it
+	failing  bool          // GetPeers returns an error
+	everRead bool          // some GetPeers call has succeeded
+	parked   chan struct{} // closed when a caller has parked
 }
 
 func (g *gatedPeers) GetPeers() ([]string, error) {
@@ -334,43 +334,43 @@ func (c simConfig) GetAddCountsToRoot() bool {
 }
 
 type worldA struct {
-	p     *Plan
-	out   *Outcome
-	cfg   *config.MockConfig
-	clk   *SimClock
-	tr    *SimTracer
-	drv   *Driver
-	coll  *collect.InMemCollector
-	tx    *recTx
-	met   *metrics.MockMetrics
-	peers *peer.MockPeers
+	p      *Plan
+	out    *Outcome
+	cfg    *config.MockConfig
+	clk    *SimClock
+	tr     *SimTracer
+	drv    *Driver
+	coll   *collect.InMemCollector
+	tx     *recTx
+	met    *metrics.MockMetrics
+	peers  *peer.MockPeers
 	gpeers *gatedPeers
 	stress *hookStress
 	gmet   *gatedMetrics
-	sf    *sample.SamplerFactory
-	hl    *health.Health
-	start time.Time
+	sf     *sample.SamplerFactory
+	hl     *health.Health
+	start  time.Time
 
 	traces map[string]*traceModel
 	byIdx  map[int]*traceModel
 	spans  map[string]*spanRec
 	// per-worker FIFO model of the input channels
-	qIn, qPeer map[int][]*spanRec
-	epochs     []cfgEpoch
-	heapNext   uint64 // simulated heap reading for the next monitor tick (0: below limit)
-	ejections  []*ejection
+	qIn, qPeer   map[int][]*spanRec
+	epochs       []cfgEpoch
+	heapNext     uint64 // simulated heap reading for the next monitor tick (0: below limit)
+	ejections    []*ejection
 	deferredTick map[int]bool // workers with a send tick waiting in the ticker's channel
-	pendingEj  *ejection
-	tickLog    []*tickRec
-	nWorkers   int
-	tt, sd     time.Duration
-	lru        map[int][]string // reference model of each worker's kept-decision LRU, oldest first
-	keptCap    int
-	peerCount  int
-	reloadHook func(op Op) bool // world variants: handle extra reload kinds
-	decLog     []*decisionRec
-	afterEj    map[int]map[int][]collect.VerifTraceInfo
-	mu         sync.Mutex
+	pendingEj    *ejection
+	tickLog      []*tickRec
+	nWorkers     int
+	tt, sd       time.Duration
+	lru          map[int][]string // reference model of each worker's kept-decision LRU, oldest first
+	keptCap      int
+	peerCount    int
+	reloadHook   func(op Op) bool // world variants: handle extra reload kinds
+	decLog       []*decisionRec
+	afterEj      map[int]map[int][]collect.VerifTraceInfo
+	mu           sync.Mutex
 }
 
 type tickRec struct {
